@@ -215,6 +215,7 @@ def run(check):
     check.guarded("COUNT-ONCE", c15.rule_count_once)
     check.guarded("PROLOGUE-TRAILER", rule_prologue_trailer)
     check.guarded("JS-HANDBACK", rule_js_handback)
+    check.guarded("SNAPSHOT-ORDER", S.rule_snapshot_order)
     return {
         "explanation": "Gate and provenance rules over transform_js / print_js / visit_mut_program / update_status (typed HIR) and over the syntax tree of main.js: printing, prologue and trailer happen only for Modified; Modified is only ever set from hook-built results; the JS wrapper hands back the caller's text for the not-modified status string that the Rust side produces.",
         "assumptions": ["swc prints exactly the tree it is given", "serde renames Metrics.status to `status` and Result.content to `content` (camelCase of single words)"],
